@@ -48,7 +48,7 @@ var (
 	c16Errnos      = []string{"EIO", "ENOSPC", "EACCES", "EDQUOT"}
 	c16Global      = []string{"write", "pwrite64", "close", "fsync", "rename", "renameat", "renameat2", "fchmod", "fchmodat", "chmod", "ftruncate", "unlinkat", "fstat", "newfstatat", "fchown", "linkat"}
 	c16PathSys     = []string{"openat", "read"}
-	c16Inputs      = []string{"p-and-missing-list", "p-and-list-with-missing-entry", "unparseable-then-unreadable", "patch-list-is-a-directory", "patch-list-line-too-long", "missing-path-first", "missing-dir-first", "two-missing-paths", "unparseable-source", "unparseable-result", "rewrite-error", "missing-path", "missing-patch", "malformed-patch", "missing-list-entry", "unreadable-source", "unreadable-patch", "directory-named-go", "rewrite-error-plus-other-change", "no-fault"}
+	c16Inputs      = []string{"p-and-missing-list", "p-and-list-with-missing-entry", "unparseable-then-unreadable", "patch-list-is-a-directory", "patch-list-line-too-long", "missing-path-first", "missing-dir-first", "two-missing-paths", "unparseable-source", "unparseable-result", "rewrite-error", "missing-path", "missing-patch", "malformed-patch", "missing-list-entry", "unreadable-source", "unreadable-patch", "directory-named-go", "rewrite-error-plus-other-change", "no-fault", "unparseable-source-of-another-package"}
 	c16ErrnoText   = map[string]string{"EIO": "input/output error", "ENOSPC": "no space left on device", "EACCES": "permission denied", "EDQUOT": "disk quota exceeded", "EFBIG": "file too large"}
 	c16FaultsCache = map[string][]fault{}
 )
@@ -427,6 +427,13 @@ func runC16(ctx *core.Ctx, idx int) *core.Result {
 		case "unparseable-source":
 			files[tgt].src = "package p\n\nfunc broken( {\n\tbump(1)\n"
 			expectFailFile, causeWords = files[tgt].name, []string{"expected"}
+		case "unparseable-source-of-another-package":
+			// every change of the patch names its package; a file of another package that does not parse is still a
+			// discovered file that could not be processed
+			patch = strings.Replace(first, "@@\n-bump", "@@\n package p\n\n-bump", 1) + "\n@@\n@@\n package p\n\n-badType\n+1 + 2\n"
+			pristinePatch = patch
+			files[tgt].src = "package other\n\nfunc broken( {\n\tbump(1)\n"
+			expectFailFile, causeWords = files[tgt].name, []string{"expected"}
 		case "unparseable-result":
 			files[tgt].src += "\nvar vbad badType\n"
 			expectFailFile, causeWords = files[tgt].name, []string{"expected", "reformat", "rewrite"}
@@ -787,7 +794,7 @@ func runC16(ctx *core.Ctx, idx int) *core.Result {
 		}
 	}
 	// a per-file failure must not change the result of the other files
-	if ft.Kind == "input" && (ft.Input == "unparseable-source" || ft.Input == "unparseable-result" || ft.Input == "rewrite-error-plus-other-change") {
+	if ft.Kind == "input" && (ft.Input == "unparseable-source" || ft.Input == "unparseable-source-of-another-package" || ft.Input == "unparseable-result" || ft.Input == "rewrite-error-plus-other-change") {
 		for _, f := range files {
 			if f.name == files[tgt].name {
 				continue
